@@ -69,6 +69,44 @@ fn gamma(a: f64) -> f64 {
     }
 }
 
+/// Principal branch of the Lambert W function for x >= -1/e: Halley's iteration from an
+/// asymptotic starting point, run until the step no longer changes the result.
+fn lambert_w(x: f64) -> f64 {
+    if x.is_nan() || x == 0.0 || x == f64::INFINITY {
+        return x;
+    }
+    let mut w = if x < -0.25 {
+        // series around the branch point -1/e in p = sqrt(2 (e x + 1))
+        let p = (2.0 * (std::f64::consts::E * x + 1.0)).max(0.0).sqrt();
+        -1.0 + p - p * p / 3.0 + 11.0 / 72.0 * p * p * p
+    } else if x < 3.0 {
+        let l = (1.0 + x).ln();
+        l * (1.0 - (1.0 + l).ln() / (2.0 + l))
+    } else {
+        let l1 = x.ln();
+        let l2 = l1.ln();
+        l1 - l2 + l2 / l1
+    };
+    for _ in 0..64 {
+        #[cfg(feature = "verif_hooks")]
+        crate::verif_hooks::tick(crate::verif_hooks::Point::EvalLoop);
+        if w <= -1.0 {
+            return -1.0;
+        }
+        let exp_w = w.exp();
+        let f = w * exp_w - x;
+        let step = f / (exp_w * (w + 1.0) - (w + 2.0) * f / (2.0 * w + 2.0));
+        if !step.is_finite() {
+            break;
+        }
+        w -= step;
+        if step.abs() <= 1e-16 * w.abs() {
+            break;
+        }
+    }
+    w
+}
+
 pub fn eval(expr: Node) -> Result<f64, Box<dyn error::Error>> {
     #[cfg(feature = "verif_hooks")]
     crate::verif_hooks::tick(crate::verif_hooks::Point::EvalEntry);
@@ -112,16 +150,7 @@ pub fn eval(expr: Node) -> Result<f64, Box<dyn error::Error>> {
             if sub_expr < -min_one.exp() {
                 return Err("The Lambert W function is not defined for {}.".into());
             }
-            let iterations = (4).max((sub_expr.log10() / 3.0).ceil() as i32);
-            let mut w: f64 = 0.0;
-            for _ in 0..iterations {
-                #[cfg(feature = "verif_hooks")]
-                crate::verif_hooks::tick(crate::verif_hooks::Point::EvalLoop);
-                let exp_w = w.exp();
-                w -= (w * exp_w - sub_expr)
-                    / (exp_w * (w + 1.0) - (w + 2.0) * (w * exp_w - sub_expr) / (2.0 * w + 2.0));
-            }
-            Ok(w)
+            Ok(lambert_w(sub_expr))
         }
         ILog(expr1, expr2) => {
             let mut n = eval(*expr1)?;
